@@ -138,7 +138,9 @@ def bindOp (carry : Bytes → BodyCarrier) : List String → String
     match parseApi api, Bytes.ofHex m, Bytes.ofHex ct, parseMClass mc, Bytes.ofHex rq, Bytes.ofHex body,
         parsePairList hdr, parseVerdict jd, parseVerdict xd, parseMultipartVerdict mpv with
     | some (api, must), some m, some ct, some mc, some rq, some body, some hdr, some jd, some xd, some mpv =>
-      if !(["off", "std", "cnt"].contains val) then "bad-op" else
+      -- `offcnt`: validation was switched off (DisableValidator) and a validator of the application installed afterwards:
+      -- a validator is configured
+      if !(["off", "std", "cnt", "offcnt"].contains val) then "bad-op" else
       let c : Codecs V2 Bool := {
         decodeValues := fun _ vals => miniFormam vals
         decodeJSON := fun _ => jd.toExcept
